@@ -20,7 +20,8 @@ ANCHORS = ["State.__eq__", "Lanelet.__eq__", "Obstacle.__eq__", "Obstacle.__hash
            "Scenario.__eq__", "Rectangle.__eq__", "GoalRegion.__eq__", "TrajectoryPrediction.__eq__",
            "TrafficSign.__eq__", "Intersection.__eq__"]
 REQUIRED = ["law.reflexive", "law.deepcopy", "law.symmetric", "law.twin", "law.perturbation", "law.hash-total",
-            "law.hash-consistent", "defaults-instance"]
+            "law.hash-consistent", "defaults-instance", "law.kwargs-order", "law.cross-class-state",
+            "class.Polygon.large", "class.Lanelet.large"]
 ASSUMPTIONS = ["perturbations are clearly different valid values (never a reordering or a duplicate)",
                "real perturbations are >= 1e-6, i.e. far above the documented 1e-10 resolution"]
 SHARDS = {"quick": 4, "thorough": 16}
@@ -132,6 +133,28 @@ def registry():
     R["Circle"] = (lambda g: (Circle, g.circle_kw(), {"radius": 1.5}), {"radius": both, "center": arr_both})
     R["Polygon"] = (lambda g: (Polygon, {"vertices": g.polygon_vertices()}, None),
                     {"vertices": [p_arr(1e-6, (1, 0)), p_arr(0.5, (1, 1))]})
+    # arrays with more than 1000 elements (numpy abbreviates their printed form): a change in the MIDDLE must be seen
+    def big_ring(g):
+        import math
+        n = 520 + g.r.randint(0, 300)
+        r0 = 20.0 + g.r.uniform(0, 30)
+        return np.array([[r0 * math.cos(2 * math.pi * k / n), r0 * math.sin(2 * math.pi * k / n)] for k in range(n)])
+    R["Polygon.large"] = (lambda g: (Polygon, {"vertices": big_ring(g)}, None),
+                          {"vertices": [lambda g, v: _scale_row(v, len(v) // 2, 1.002),
+                                        lambda g, v: _scale_row(v, len(v) // 3, 1.0 + 1e-6)]})
+
+    def big_lanelet_kw(g):
+        n = 510 + g.r.randint(0, 200)
+        xs = np.arange(n, dtype=float) * 0.5
+        c = np.stack([xs, np.sin(xs / 30.0)], 1)
+        return {"left_vertices": c + np.array([0.0, 1.5]), "center_vertices": c, "right_vertices": c - np.array([0.0, 1.5]),
+                "lanelet_id": g.r.randint(1, 99)}
+    R["Lanelet.large"] = (lambda g: (Lanelet, big_lanelet_kw(g), None),
+                          {k: [lambda g, v: _shift_row(v, len(v) // 2, 0.25), lambda g, v: _shift_row(v, len(v) // 2, 1e-6)]
+                           for k in ("left_vertices", "center_vertices", "right_vertices")})
+    R["AreaBorder.large"] = (lambda g: (AreaBorder, {"area_border_id": g.r.randint(1, 99),
+                                                     "border_vertices": big_lanelet_kw(g)["center_vertices"]}, None),
+                             {"border_vertices": [lambda g, v: _shift_row(v, len(v) // 2, 0.25)]})
     R["ShapeGroup"] = (lambda g: (ShapeGroup, {"shapes": [g.basic_shape() for _ in range(g.r.randint(1, 3))]}, None),
                        {"shapes": [p_list_dup_changed(other_shape), lambda g, v: list(v) + [g.circle(radius=9.5)]]})
     R["Interval"] = (lambda g: (Interval, {"start": g.real(), "end": 200.0 + g.real()}, None),
@@ -389,6 +412,20 @@ def registry():
     return R
 
 
+def _scale_row(v, k, f):
+    import numpy as np
+    w = np.array(v, dtype=float).copy()
+    w[k] = w[k] * f
+    return w
+
+
+def _shift_row(v, k, d):
+    import numpy as np
+    w = np.array(v, dtype=float).copy()
+    w[k, 1] += d
+    return w
+
+
 def _unused_sign_id(elements):
     from commonroad.scenario.traffic_sign import TrafficSignIDZamunda
     used = {e.traffic_sign_element_id for e in elements}
@@ -523,6 +560,32 @@ def run(ctx):
                     h2 = safe(hash, tw[1])
                     if h2[0] == "ok" and h2[1] != h[1]:
                         V("equal-but-hash-differs", "twin")
+        # L4b the order in which keyword arguments are given is not an attribute value: same values, other order
+        ctx.feature("law.kwargs-order")
+        ko = safe(lambda: make(Gen(random.Random(seed)))[0](**dict(reversed(list(
+            (make(Gen(random.Random(seed)))[2] if use_defaults else make(Gen(random.Random(seed)))[1]).items())))))
+        if ko[0] == "ok":
+            r = eq_ops(x, ko[1])
+            if r[0] == "ok" and r[1] != (True, True, False, False):
+                V("keyword-order-matters", "x==same-values-other-keyword-order -> %s" % (r[1],))
+            elif r[0] == "ok" and h[0] == "ok":
+                h2 = safe(hash, ko[1])
+                if h2[0] == "ok" and h2[1] != h[1]:
+                    V("equal-but-hash-differs", "keyword-order")
+        # L4c a custom state with exactly the attributes of a typed state: whenever the library calls them equal, the
+        # hashes must agree
+        if hasattr(x, "attributes") and hasattr(x, "time_step") and not use_defaults:
+            import commonroad.scenario.state as st_
+            cs = safe(lambda: st_.CustomState(**{a: getattr(x, a) for a in reversed(list(x.attributes))}))
+            if cs[0] == "ok":
+                r = eq_ops(x, cs[1])
+                if r[0] == "ok" and r[1][0] != r[1][1]:
+                    V("not-symmetric", "typed state vs custom state with the same attributes: %s" % (r[1],))
+                elif r[0] == "ok" and r[1][0] and h[0] == "ok":
+                    ctx.feature("law.cross-class-state")
+                    h2 = safe(hash, cs[1])
+                    if h2[0] == "ok" and h2[1] != h[1]:
+                        V("equal-but-hash-differs", "custom-state-with-same-attributes")
         # L5 single perturbations (populated instances only: for the all-defaults instance the harness does not know
         # which values differ from the constructor defaults, so only reflexivity / deepcopy / hash laws are judged)
         if use_defaults:
